@@ -20,7 +20,6 @@ import (
 
 	"github.com/fatedier/frp/pkg/msg"
 	"github.com/fatedier/frp/pkg/nathole"
-	"github.com/fatedier/frp/pkg/util/log"
 	"github.com/fatedier/frp/pkg/util/util"
 
 	"verifharness/hx"
@@ -40,8 +39,15 @@ type rvRow struct {
 	ms          int64
 }
 
+// On loopback the receiver's low-TTL detect packets (one per listening socket, 257 in modes 2 and 4) all reach the sender's
+// socket seconds before the sender reads -- behind a real NAT they die on the way, that is what the TTL is for.  A larger
+// receive buffer keeps them from crowding out the one reply the sender waits for.
 func udpOn(ip string) (*net.UDPConn, error) {
-	return net.ListenUDP("udp4", &net.UDPAddr{IP: net.ParseIP(ip), Port: 0})
+	c, err := net.ListenUDP("udp4", &net.UDPAddr{IP: net.ParseIP(ip), Port: 0})
+	if err == nil {
+		_ = c.SetReadBuffer(8 << 20)
+	}
+	return c, err
 }
 
 // mapped address list of a socket: easy = the real address twice; hard with regular port changes =
@@ -133,6 +139,14 @@ func prequeued(i int) (string, bool) {
 	}
 	vResp.DetectBehavior.ListenRandomPorts = 1500
 	key := []byte(fmt.Sprintf("prequeued-%d", i))
+	// an unfiltered network also delivers strays: datagrams of 20 and 40 junk bytes from a third socket are queued on the
+	// receiver's candidate socket BEFORE the sender's detect message; MakeHole has to skip them (a crash here takes the whole
+	// driver down and is reported as "implementation crashed under driver rendezvous")
+	if third, err := udpOn("127.0.20.3"); err == nil {
+		_, _ = third.WriteToUDP([]byte("01234567890123456789"), vConn.LocalAddr().(*net.UDPAddr))
+		_, _ = third.WriteToUDP([]byte("0123456789012345678901234567890123456789"), vConn.LocalAddr().(*net.UDPAddr))
+		third.Close()
+	}
 	var errS, errR string
 	var wg sync.WaitGroup
 	wg.Add(2)
@@ -161,7 +175,7 @@ func prequeued(i int) (string, bool) {
 }
 
 func runRendezvous(cfg *hx.RunCfg) error {
-	log.InitLogger("/dev/null", "error", 0, true)
+	hx.Quiet()
 	nathole.NatHoleTimeout = 5
 	type keyPlan struct {
 		name         string
